@@ -146,6 +146,25 @@ Theorem C09_repeat_history : forall setup body n, run_fw setup body n = run_fw_s
 Proof. exact run_fw_repeat. Qed.
 Print Assumptions C09_repeat_history.
 
+(* deep copies are memory-safe too: allowing `x = y` between two declared lists (emitted as
+   __redu_list_assign) in the loop keeps every reachable heap well-formed and tight, for every history;
+   the only possible memory error is an out-of-bounds index - which now CAN happen on scripts Python runs
+   fine, because Python aliases where the firmware copies (C09_clone_out_of_bounds_refuted below) *)
+Theorem C09_deep_copy_safe_partial : forall setup bodies,
+  owner_or_clone_seq setup bodies = true ->
+  match run_fw_seq setup bodies with
+  | Safe st => wf_heap st /\ tight st
+  | Unsafe k => k = OutOfBounds
+  end.
+Proof. exact owner_or_clone_fw_seq. Qed.
+Print Assumptions C09_deep_copy_safe_partial.
+
+Example C09_deep_copy_nonvacuous :
+  owner_or_clone_seq clone_setup_decls [clone_loop; clone_loop] = true /\
+  single_owner_seq clone_setup_decls [clone_loop; clone_loop] = false.
+Proof. exact clone_guard_witness. Qed.
+Print Assumptions C09_deep_copy_nonvacuous.
+
 Example C09_partial_nonvacuous :
   single_owner ok_setup ok_body = true /\ exists pst, run_py ok_setup ok_body 3 = POk pst /\ p_live pst = 8.
 Proof. exact (conj ok_guard ok_python). Qed.
@@ -203,3 +222,10 @@ Print Assumptions C09_leak_reassign_refuted.
 Theorem C09_clone_divergence_refuted : grows clone_setup clone_body.
 Proof. exact clone_grows. Qed.
 Print Assumptions C09_clone_divergence_refuted.
+
+(* ... and an index that is fine in Python is out of bounds in the firmware:
+   a = [1]; c = [2]; c = a   while True: c.append(5); a[1]; a.remove(5) *)
+Theorem C09_clone_out_of_bounds_refuted :
+  exists n pst, run_py clone_setup clone_oob_body n = POk pst /\ run_fw clone_setup clone_oob_body n = Unsafe OutOfBounds.
+Proof. exact clone_out_of_bounds. Qed.
+Print Assumptions C09_clone_out_of_bounds_refuted.
